@@ -32,7 +32,12 @@ class HistModel:
             return ev
         rmask = (1 << self.reg_width) - 1
         for v in samples:
-            assert 0 <= v < (1 << self.sample_width)
+            if not 0 <= v < (1 << self.sample_width):
+                # a sample the statement admits (e.g. a latency within max_latency) does not fit the sample
+                # width the component chose for itself: a verdict about the component, not a harness error
+                from ..kernel import Violation
+
+                raise Violation("sample-does-not-fit-histogram", f"sample {v} does not fit the histogram's sample width {self.sample_width}")
         if (self.total & rmask) + sum(samples) > rmask:
             ev["sum_wrap"] = 1
         if (self.samples & rmask) + len(samples) > rmask:
